@@ -1,42 +1,49 @@
 import Glom.Py.PV
+import Glom.Py.Json
 import Glom.Spec.C02
 import Glom.Model.C02Env
 import Glom.Model.C02Heap
 /-
   C02 driver: one JSON case in, one JSON verdict out.
 
-  case:  {"target": PV,
-          "expr": E,      E ::= {"lit": PV} | {"T": [[dunder, E]…]} | {"Spec": E} | {"list": [E…]}
-                               | {"tuple": [E…]} | {"dict": [[E, E]…]}
-                               | {"call": {"args": [E…], "kwargs": [[name, E]…]}}
-          "impl":   {"ok": PV} | {"pae": {"idx": n, "exc": cls, "glom": b}} | {"other": cls},
-          "impl_alias": PATH | null,              -- where in the target the very result object sits
-          "impl_after": PV,                       -- the target object after glom.glom(target, expr)
-          "direct": {"ok": PV} | {"fail": {"k": n, "kind": name, "exc": cls}} | {"raised": cls},
-          "direct_alias": PATH | null,
-          "direct_after": PV }                    -- the target object after the chain applied directly
-  PATH = {"l": [step…]}: the first access path (dict keys / indices / attribute names, depth-first
-  in container order) from the target to the object that IS (identity) the result, when the
-  result is a list / dict / attribute object; null when there is none.
-
-  The target tree is allocated in a heap (every list / tuple / dict / object gets
-  an address: no two paths of a decoded tree reach the same object, which is
-  what the harness' `dec` builds); literals of the expression are spelled
-  structurally (a literal list is what `arg_val` rebuilds member by member; a
-  literal slice is one object allocated up front).  Observations are the
-  *trees* values denote in the heap left behind, paired with the alias path of
-  the value (`viewOf`): `glom(t, T['f'](T['l'])) is t['l']` is observable.
+  case (the fields the harness' `run_impl` adds; the generator's own fields are ignored here):
+    "g_heap":   [cell…]     the object graph the target and the literal objects of the expression
+                            live in, as it is BEFORE the evaluation (cell: Glom/Py/Json.lean `objOfJson`:
+                            {"k": "list"|"tuple"|"set"|"dict"|"inst", "c": class name, "v": […]});
+                            any graph: objects reachable by several paths, cycles
+    "g_target": Val         null | {"b"…} | {"i"…} | {"s"…} | {"f"…} | {"fn"…} | {"sent"…} | {"r": address}
+    "g_lits":   [Val…]      the literal heap objects of the expression (instances of container
+                            subclasses, attribute objects, …): `{"hl": i}` in the expression
+    "shared":   [E…]        (optional) argument objects used at several places: `{"sh": i}`
+    "expr": E     E ::= {"lit": PV} | {"hl": i} | {"sh": i} | {"T": [[dunder, E]…]} | {"Spec": E} | {"list": [E…]}
+                       | {"tuple": [E…]} | {"dict": [[E, E]…]} | {"set": [E…]} | {"fset": [E…]}
+                       | {"call": {"args": [E…], "kwargs": [[name, E]…]}}
+                  a {"lit": PV} list / tuple / dict / set is spelled structurally (`arg_val` rebuilds
+                  it member by member on every evaluation), a literal slice is one object allocated
+                  up front; {"hl": i} is the very object `g_lits[i]` — `.sub` when it is an instance
+                  of a subclass of list / tuple / dict / set / frozenset, a plain literal otherwise
+    "impl":   {"ok": GRAPH} | {"pae": {"idx": n, "exc": cls, "glom": b}} | {"other": cls}
+    "impl_after": GRAPH
+    "direct": {"ok": GRAPH} | {"fail": {"k": n, "kind": name, "exc": cls}} | {"raised": cls}
+              | {"callee": <one of the two error forms>}
+    "direct_after": GRAPH
+  GRAPH = {"roots": [Val…], "cells": [cell…]}: the object graph reachable from the roots
+  [value, target, literal objects…] (after-state: [target, target, literal objects…]), depth-first,
+  children in their natural order, ADDRESSES RENUMBERED IN FIRST-VISIT ORDER.  Identity, sharing
+  and cycles are all in it: `glom(t, T['f'](T['l'])) is t['l']`, a literal that reached the callee
+  as the very object, a member appended to a shared list.
 
   `impl` is what glom.glom(target, expr) did; `direct` is what the same chain of
-  operations did when the harness applied it to a fresh copy of the target with
-  Python's own operators.  Three-way comparison:
-    * `holds`  = checkC02's two conjuncts (outcome, target afterwards) on the implementation's
+  operations did when the harness applied it to a fresh copy of the object graph with
+  Python's own operators (the callee of a call passed through the reference `arg_val` first).
+  Three-way comparison:
+    * `holds`  = checkC02's two conjuncts (outcome, object graph afterwards) on the implementation's
                  observation, against the reference outcome computed here in Lean with `hPrim`;
-    * the Lean reference must equal Python's `direct` outcome and final target (this
+    * the Lean reference must equal Python's `direct` outcome and final graph (this
       validates the kernel's primitives; if they differ Python's outcome is the reference
       and the case is reported as a disagreement);
     * `agree`  = the code-shaped model (`record` + `tEval` on the regenerated
-                 tables) produces the implementation's observation and final target.
+                 tables) produces the implementation's observation and final graph.
   Floats whose value the kernel does not reproduce (`float // x`, `x ** y` through libm) are the
   opaque float `{"f": "?"}` on the Lean side: the comparisons above are then modulo opaque floats
   (the class of every outcome and the position of every failure are still compared exactly), and
@@ -44,31 +51,6 @@ import Glom.Model.C02Heap
 -/
 namespace Glom.C02.Driver
 open Lean Glom Glom.C02
-
-partial def exprOfJson (j : Json) : Except String (E PV) := do
-  if let .ok v := j.getObjVal? "lit" then return .lit (← pvOfJson v)
-  else if let .ok (.arr a) := j.getObjVal? "T" then
-    return .texpr (← a.toList.mapM (fun s => match s with
-      | .arr #[.str d, x] => do return (d, ← exprOfJson x)
-      | _ => throw s!"bad step {s.compress}"))
-  else if let .ok x := j.getObjVal? "Spec" then return .spec (← exprOfJson x)
-  else if let .ok (.arr a) := j.getObjVal? "list" then return .list (← a.toList.mapM exprOfJson)
-  else if let .ok (.arr a) := j.getObjVal? "tuple" then return .tuple (← a.toList.mapM exprOfJson)
-  else if let .ok (.arr a) := j.getObjVal? "dict" then
-    return .dict (← a.toList.mapM (fun s => match s with
-      | .arr #[k, v] => do return (← exprOfJson k, ← exprOfJson v)
-      | _ => throw s!"bad entry {s.compress}"))
-  else if let .ok c := j.getObjVal? "call" then
-    let args ← match c.getObjVal? "args" with
-      | .ok (.arr a) => a.toList.mapM exprOfJson
-      | _ => throw "bad call args"
-    let kwargs ← match c.getObjVal? "kwargs" with
-      | .ok (.arr a) => a.toList.mapM (fun s => match s with
-        | .arr #[.str k, v] => do return (k, ← exprOfJson v)
-        | _ => throw s!"bad kwarg {s.compress}")
-      | _ => throw "bad call kwargs"
-    return .cargs args kwargs
-  else throw s!"bad expr {j.compress}"
 
 /-- allocate a tree in the heap; `none`: a kind of value the heap instance does not model -/
 partial def allocPV (p : PV) (s : HS) : Option (Val × HS) :=
@@ -99,109 +81,227 @@ where
       let (vs, s2) ← allocAll r s1
       return (v :: vs, s2)
 
-/-- the expression over heap values: a literal list / tuple / dict is spelled structurally
-    (`arg_val` rebuilds it on every evaluation), a literal slice is allocated once -/
-partial def exprToHeap (e : E PV) (s : HS) : Option (E Val × HS) :=
-  match e with
-  | .lit p =>
-    match ofScalarPV p with
-    | some v => some (.lit v, s)
-    | none =>
-      match p with
-      | .list xs => exprToHeap (.list (xs.map .lit)) s
-      | .tuple xs => exprToHeap (.tuple (xs.map .lit)) s
-      | .dict es => exprToHeap (.dict (es.map (fun kv => (.lit kv.1, .lit kv.2)))) s
-      | .obj "slice" _ => (allocPV p s).map (fun r => (.lit r.1, r.2))
-      | _ => none
-  | .texpr steps => do
-    let (as, s1) ← many (steps.map (·.2)) s
-    return (.texpr ((steps.map (·.1)).zip as), s1)
-  | .spec x => do
-    let (x', s1) ← exprToHeap x s
-    return (.spec x', s1)
-  | .list xs => do
-    let (ys, s1) ← many xs s
-    return (.list ys, s1)
-  | .tuple xs => do
-    let (ys, s1) ← many xs s
-    return (.tuple ys, s1)
-  | .dict es => do
-    let (ks, s1) ← many (es.map (·.1)) s
-    let (vs, s2) ← many (es.map (·.2)) s1
-    return (.dict (ks.zip vs), s2)
-  | .cargs args kwargs => do
-    let (as, s1) ← many args s
-    let (ks, s2) ← many (kwargs.map (·.2)) s1
-    return (.cargs as ((kwargs.map (·.1)).zip ks), s2)
+/-- a literal tree of the expression: scalars are literals, list / tuple / dict / set are spelled
+    structurally (rebuilt by `arg_val`), a slice is one object -/
+partial def litOfPV (p : PV) (s : HS) : Option (E Val × HS) :=
+  match ofScalarPV p with
+  | some v => some (.lit v, s)
+  | none =>
+    match p with
+    | .list xs => do let (ys, s1) ← many xs s; return (.list ys, s1)
+    | .tuple xs => do let (ys, s1) ← many xs s; return (.tuple ys, s1)
+    | .set xs => do let (ys, s1) ← many xs s; return (.set "set" ys, s1)
+    | .fset xs => do let (ys, s1) ← many xs s; return (.set "frozenset" ys, s1)
+    | .dict es => do
+      let (ks, s1) ← many (es.map (·.1)) s
+      let (vs, s2) ← many (es.map (·.2)) s1
+      return (.dict (ks.zip vs), s2)
+    | .obj "slice" _ => (allocPV p s).map (fun r => (.lit r.1, r.2))
+    | _ => none
 where
-  many (xs : List (E PV)) (s : HS) : Option (List (E Val) × HS) :=
+  many (xs : List PV) (s : HS) : Option (List (E Val) × HS) :=
     match xs with
     | [] => some ([], s)
     | x :: r => do
-      let (y, s1) ← exprToHeap x s
+      let (y, s1) ← litOfPV x s
       let (ys, s2) ← many r s1
       return (y :: ys, s2)
 
-/-- what an observer sees of a value: the tree it denotes, and — for a list / dict /
-    attribute object — the first path by which the target reaches that very object -/
-abbrev W := Option PV × Option PV
+/-- the literal heap object `v` as an expression: an instance of a container subclass is `.sub` -/
+def litOfHeap (s : HS) (v : Val) : Option (E Val) :=
+  match v with
+  | .ref a =>
+    match s.get a with
+    | some (.list c xs) => if c == "list" then none else some (.sub "list" v (xs.map .lit))
+    | some (.tuple c xs) => if c == "tuple" then none else some (.sub "tuple" v (xs.map .lit))
+    | some (.dict c es) =>
+      if c == "dict" then none else some (.sub "dict" v (es.flatMap (fun e => [.lit e.1, .lit e.2])))
+    | some (.set c xs) =>
+      if c == "set" || c == "frozenset" then none
+      else some (.sub (if c == "FSet" then "frozenset" else "set") v (xs.map .lit))
+    | some (.inst c _) => if specClasses.contains c then none else some (.lit v)
+    | none => none
+  | _ => some (.lit v)
 
-def isMutCell : HObj → Bool
-  | .list .. | .dict .. => true
-  | .inst c _ => c != "<bound>" && c != "slice"
+partial def exprOfJson (lits : List Val) (shared : List Json) (j : Json) (s : HS) : Except String (E Val × HS) := do
+  if let .ok v := j.getObjVal? "lit" then
+    match litOfPV (← pvOfJson v) s with
+    | some r => return r
+    | none => throw "skip:literal outside the heap instance"
+  else if let .ok i := j.getObjValAs? Nat "hl" then
+    match lits[i]? with
+    | some v => match litOfHeap s v with
+      | some e => return (e, s)
+      | none => throw "skip:literal heap object outside the heap instance"
+    | none => throw s!"bad literal index {i}"
+  else if let .ok i := j.getObjValAs? Nat "sh" then
+    -- a shared argument object of the expression: the model (and the reference) evaluate it
+    -- whenever an operation that uses it is reached — the same expression at every use
+    match shared[i]? with
+    | some x => exprOfJson lits shared x s
+    | none => throw s!"bad shared index {i}"
+  else if let .ok (.arr a) := j.getObjVal? "T" then
+    let mut s1 := s
+    let mut steps : List (String × E Val) := []
+    for st in a.toList do
+      match st with
+      | .arr #[.str d, x] =>
+        let (e, s2) ← exprOfJson lits shared x s1
+        s1 := s2
+        steps := steps ++ [(d, e)]
+      | _ => throw s!"bad step {st.compress}"
+    return (.texpr steps, s1)
+  else if let .ok x := j.getObjVal? "Spec" then
+    let (e, s1) ← exprOfJson lits shared x s
+    return (.spec e, s1)
+  else if let .ok (.arr a) := j.getObjVal? "list" then
+    let (es, s1) ← many a.toList s
+    return (.list es, s1)
+  else if let .ok (.arr a) := j.getObjVal? "tuple" then
+    let (es, s1) ← many a.toList s
+    return (.tuple es, s1)
+  else if let .ok (.arr a) := j.getObjVal? "set" then
+    let (es, s1) ← many a.toList s
+    return (.set "set" es, s1)
+  else if let .ok (.arr a) := j.getObjVal? "fset" then
+    let (es, s1) ← many a.toList s
+    return (.set "frozenset" es, s1)
+  else if let .ok (.arr a) := j.getObjVal? "dict" then
+    let mut s1 := s
+    let mut out : List (E Val × E Val) := []
+    for en in a.toList do
+      match en with
+      | .arr #[k, v] =>
+        let (ke, s2) ← exprOfJson lits shared k s1
+        let (ve, s3) ← exprOfJson lits shared v s2
+        s1 := s3
+        out := out ++ [(ke, ve)]
+      | _ => throw s!"bad entry {en.compress}"
+    return (.dict out, s1)
+  else if let .ok c := j.getObjVal? "call" then
+    let args ← match c.getObjVal? "args" with
+      | .ok (.arr a) => pure a.toList
+      | _ => throw "bad call args"
+    let (as, s1) ← many args s
+    let kws ← match c.getObjVal? "kwargs" with
+      | .ok (.arr a) => pure a.toList
+      | _ => throw "bad call kwargs"
+    let mut s2 := s1
+    let mut ks : List (String × E Val) := []
+    for kw in kws do
+      match kw with
+      | .arr #[.str k, v] =>
+        let (e, s3) ← exprOfJson lits shared v s2
+        s2 := s3
+        ks := ks ++ [(k, e)]
+      | _ => throw s!"bad kwarg {kw.compress}"
+    return (.cargs as ks, s2)
+  else throw s!"bad expr {j.compress}"
+where
+  many (xs : List Json) (s : HS) : Except String (List (E Val) × HS) := do
+    let mut s1 := s
+    let mut out : List (E Val) := []
+    for x in xs do
+      let (e, s2) ← exprOfJson lits shared x s1
+      s1 := s2
+      out := out ++ [e]
+    return (out, s1)
+
+/-! ### what an observer sees: the object graph, addresses renumbered in first-visit order -/
+
+structure Canon where
+  roots : List Val
+  cells : List HObj
+  deriving BEq, Repr
+
+/-- objects whose identity Python programs cannot rely on (CPython returns the operand itself for
+    `t[:]`, `t + ()`, `t * 1`, shares the empty tuple, creates a new bound method at every attribute
+    access): exact tuples and frozensets, bound methods, dict views, slices.  In the canonical graph
+    they are expanded at every occurrence; every other cell (list, dict, set, attribute objects,
+    instances of subclasses of ANY container, stored spec objects) is one node however it is reached. -/
+def identityFree : HObj → Bool
+  | .tuple c _ => c == "tuple"
+  | .set c _ => c == "frozenset"
+  | .inst c _ => c == "<bound>" || c == "<view>" || c == "slice"
   | _ => false
 
-def firstSome {α β} (f : α → Option β) : List α → Option β
-  | [] => none
-  | x :: r => match f x with
-    | some y => some y
-    | none => firstSome f r
+structure CState where
+  memo : List (Nat × Nat)
+  cells : Array HObj
 
-/-- depth-first, container order, the first path from `v` to the cell `goal` -/
-def findPath (h : Heap) (goal : Nat) : Nat → Val → Option (List PV)
-  | 0, _ => none
-  | fuel + 1, .ref a =>
-    if a == goal then some []
-    else match h[a]? with
-      | some (.list _ xs) | some (.tuple _ xs) =>
-        firstSome (fun (ix : Nat × Val) => (findPath h goal fuel ix.2).map (PV.int ix.1 :: ·))
-          ((List.range xs.length).zip xs)
-      | some (.dict _ es) =>
-        firstSome (fun (e : Val × Val) =>
-          (findPath h goal fuel e.2).map (((toPV h 8 e.1).getD .none) :: ·)) es
-      | some (.inst c attrs) =>
-        if c == "<bound>" || c == "slice" then none
-        else firstSome (fun (e : String × Val) => (findPath h goal fuel e.2).map (PV.str e.1 :: ·)) attrs
-      | _ => none
-  | _, _ => none
-
-def aliasOf (s : HS) (target v : Val) : Option PV :=
+mutual
+/-- depth-first, children in their natural order; a cell gets its number at its first visit -/
+partial def canonVal (h : Heap) (v : Val) (st : CState) : Option (Val × CState) :=
   match v with
-  | .ref a => match s.get a with
-    | some o => if isMutCell o then (findPath s.heap a viewFuel target).map PV.list else none
-    | none => none
-  | _ => none
+  | .ref a =>
+    match st.memo.find? (·.1 == a) with
+    | some (_, n) => some (.ref n, st)
+    | none =>
+      if st.cells.size > 5000 then none else
+      match h[a]? with
+      | none => none
+      | some o =>
+        let n := st.cells.size
+        let st1 : CState :=
+          { memo := if identityFree o then st.memo else (a, n) :: st.memo, cells := st.cells.push o }
+        match o with
+        | .list c xs => do
+          let (ys, st2) ← canonVals h xs st1
+          some (.ref n, { st2 with cells := st2.cells.set! n (.list c ys) })
+        | .tuple c xs => do
+          let (ys, st2) ← canonVals h xs st1
+          some (.ref n, { st2 with cells := st2.cells.set! n (.tuple c ys) })
+        | .set c xs => do
+          let (ys, st2) ← canonVals h xs st1
+          some (.ref n, { st2 with cells := st2.cells.set! n (.set c ys) })
+        | .dict c es => do
+          let (ys, st2) ← canonVals h (es.flatMap (fun e => [e.1, e.2])) st1
+          some (.ref n, { st2 with cells := st2.cells.set! n (.dict c (pairUp ys)) })
+        | .inst c as => do
+          let (ys, st2) ← canonVals h (as.map (·.2)) st1
+          some (.ref n, { st2 with cells := st2.cells.set! n (.inst c ((as.map (·.1)).zip ys)) })
+  | v => some (v, st)
 
-def viewOf (target : Val) : View Val HS W := fun s v => (toPV s.heap viewFuel v, aliasOf s target v)
+partial def canonVals (h : Heap) (vs : List Val) (st : CState) : Option (List Val × CState) :=
+  match vs with
+  | [] => some ([], st)
+  | v :: r => do
+    let (w, st1) ← canonVal h v st
+    let (ws, st2) ← canonVals h r st1
+    some (w :: ws, st2)
+end
 
-def aliasOfJson (j : Json) (key : String) : Except String (Option PV) :=
-  match j.getObjVal? key with
-  | .ok .null => .ok none
-  | .ok p => (pvOfJson p).map some
-  | .error _ => .ok none
+def canon (h : Heap) (roots : List Val) : Option Canon :=
+  match canonVals h roots { memo := [], cells := #[] } with
+  | some (rs, st) => some { roots := rs, cells := st.cells.toList }
+  | none => none
 
-def obsOfJson (j : Json) (al : Option PV) : Except String (Obs W) := do
-  if let .ok v := j.getObjVal? "ok" then return .ok (some (← pvOfJson v), al)
+/-- what an observer sees of a value in a state: the object graph reachable from the value, the
+    target and the literal objects of the expression, renumbered in first-visit order -/
+abbrev W := Option Canon
+
+def viewOf (target : Val) (lits : List Val) : View Val HS W :=
+  fun s v => canon s.heap ([v, target] ++ lits)
+
+def canonOfJson (j : Json) : Except String Canon := do
+  let roots ← listOfJson valOfJson (← j.getObjVal? "roots")
+  let cells ← heapOfJson (← j.getObjVal? "cells")
+  return { roots, cells }
+
+def canonToJson (c : Canon) : Json :=
+  Json.mkObj [("roots", Json.arr (c.roots.map valToJson).toArray), ("cells", heapToJson c.cells)]
+
+def wToJson : W → Json
+  | some c => canonToJson c
+  | none => Json.mkObj [("dangling", true)]
+
+def obsOfJson (j : Json) : Except String (Obs W) := do
+  if let .ok v := j.getObjVal? "ok" then return .ok (some (← canonOfJson v))
   else if let .ok p := j.getObjVal? "pae" then
     return .pae (← p.getObjValAs? Nat "idx") (← p.getObjValAs? String "exc")
       (← p.getObjValAs? Bool "glom")
   else if let .ok c := j.getObjValAs? String "other" then return .other c
   else throw s!"bad obs {j.compress}"
-
-def wToJson : W → Json
-  | (some v, al) => Json.mkObj [("tree", pvToJson v),
-      ("alias", match al with | some p => pvToJson p | none => Json.null)]
-  | (none, _) => Json.mkObj [("cyclic", true)]
 
 def obsToJson : Obs W → Json
   | .ok v => Json.mkObj [("ok", wToJson v)]
@@ -213,60 +313,82 @@ def kindName (k : Kind) : String :=
   | some (n, _) => n
   | none => "other"
 
-def refOfJson (j : Json) (al : Option PV) : Except String (Except RefErr W) := do
-  if let .ok v := j.getObjVal? "ok" then return .ok (some (← pvOfJson v), al)
-  else if let .ok p := j.getObjVal? "fail" then
-    return .error (.opFail (← p.getObjValAs? Nat "k") (Kind.ofString (← p.getObjValAs? String "kind"))
-      ⟨← p.getObjValAs? String "exc"⟩)
-  else if let .ok c := j.getObjValAs? String "raised" then return .error (.raised ⟨c⟩)
+/-- how the PROPERTY says a failure inside the evaluation of a spec-object callee surfaces: a
+    failing attribute / item / arithmetic step of a documented class as PathAccessError(position),
+    anything else as it is.  (Independent of the extracted tables: the Python leg stays a reference
+    also when the tables are not well formed.) -/
+def errOfDoc : RefErr → Err
+  | .opFail k kind e => if documented kind e then .pae k e else .raised e
+  | .raised e => .raised e
+  | .callee e => e
+  | .unsupported => .unsupported
+
+/-- the error forms of the direct leg -/
+partial def refErrOfJson (F : Facts) (j : Json) : Except String RefErr := do
+  if let .ok p := j.getObjVal? "fail" then
+    return .opFail (← p.getObjValAs? Nat "k") (Kind.ofString (← p.getObjValAs? String "kind"))
+      ⟨← p.getObjValAs? String "exc"⟩
+  else if let .ok c := j.getObjValAs? String "raised" then return .raised ⟨c⟩
+  else if let .ok c := j.getObjVal? "callee" then
+    return .callee (errOfDoc (← refErrOfJson F c))
   else throw s!"bad direct {j.compress}"
+
+def refOfJson (F : Facts) (j : Json) : Except String (Except RefErr W) := do
+  if let .ok v := j.getObjVal? "ok" then return .ok (some (← canonOfJson v))
+  else return .error (← refErrOfJson F j)
+
+def errToJson : Err → Json
+  | .pae k e => Json.mkObj [("pae", Json.mkObj [("idx", k), ("exc", e.cls)])]
+  | .raised e => Json.mkObj [("raised", e.cls)]
+  | .unsupported => Json.mkObj [("unsupported", true)]
 
 def refToJson : Except RefErr W → Json
   | .ok v => Json.mkObj [("ok", wToJson v)]
   | .error (.opFail k kind e) =>
     Json.mkObj [("fail", Json.mkObj [("k", k), ("kind", kindName kind), ("exc", e.cls)])]
   | .error (.raised e) => Json.mkObj [("raised", e.cls)]
+  | .error (.callee e) => Json.mkObj [("callee", errToJson e)]
   | .error .unsupported => Json.mkObj [("unsupported", true)]
-
-def refEq : Except RefErr W → Except RefErr W → Bool
-  | .ok a, .ok b => a == b
-  | .error a, .error b => a == b
-  | _, _ => false
 
 /-! ### comparison modulo opaque floats
 
-  The kernel returns the opaque float `PV.float "?"` where it decides that the result of an
+  The kernel returns the opaque float `Val.float "?"` where it decides that the result of an
   operation IS a float but cannot reproduce CPython's value bit for bit (`float // x`,
   `float % x`, `x ** y` through libm `pow`).  The first argument of these functions is the
   kernel's side: an opaque float matches every float, everything else must be equal. -/
 
-partial def pvMatch : PV → PV → Bool
+def valMatch : Val → Val → Bool
   | .float h, .float h' => h == opaqueHex || h == h'
-  | .list xs, .list ys => all2 xs ys
-  | .tuple xs, .tuple ys => all2 xs ys
-  | .dict es, .dict fs =>
-    es.length == fs.length && (es.zip fs).all (fun p => pvMatch p.1.1 p.2.1 && pvMatch p.1.2 p.2.2)
-  | .obj c as, .obj c' bs =>
-    c == c' && as.length == bs.length && (as.zip bs).all (fun p => p.1.1 == p.2.1 && pvMatch p.1.2 p.2.2)
   | a, b => a == b
-where
-  all2 (xs ys : List PV) : Bool := xs.length == ys.length && (xs.zip ys).all (fun p => pvMatch p.1 p.2)
 
-partial def pvHasOpaque : PV → Bool
+def all2 {α} (f : α → α → Bool) (xs ys : List α) : Bool :=
+  xs.length == ys.length && (xs.zip ys).all (fun p => f p.1 p.2)
+
+def objMatch : HObj → HObj → Bool
+  | .list c xs, .list c' ys => c == c' && all2 valMatch xs ys
+  | .tuple c xs, .tuple c' ys => c == c' && all2 valMatch xs ys
+  | .set c xs, .set c' ys => c == c' && all2 valMatch xs ys
+  | .dict c es, .dict c' fs =>
+    c == c' && all2 (fun a b => valMatch a.1 b.1 && valMatch a.2 b.2) es fs
+  | .inst c as, .inst c' bs => c == c' && all2 (fun a b => a.1 == b.1 && valMatch a.2 b.2) as bs
+  | _, _ => false
+
+def canonMatch (a b : Canon) : Bool := all2 valMatch a.roots b.roots && all2 objMatch a.cells b.cells
+
+def isOpaqueV : Val → Bool
   | .float h => h == opaqueHex
-  | .list xs | .tuple xs => xs.any pvHasOpaque
-  | .dict es => es.any (fun e => pvHasOpaque e.1 || pvHasOpaque e.2)
-  | .obj _ as => as.any (fun e => pvHasOpaque e.2)
   | _ => false
 
-def wMatch (a b : W) : Bool :=
-  (match a.1, b.1 with
-   | some x, some y => pvMatch x y
-   | none, none => true
-   | _, _ => false) && a.2 == b.2
+def canonHasOpaque (c : Canon) : Bool :=
+  c.roots.any isOpaqueV || c.cells.any (fun o => (childrenKV o).any isOpaqueV)
 
-def wHasOpaque (a : W) : Bool := match a.1 with
-  | some x => pvHasOpaque x
+def wMatch : W → W → Bool
+  | some a, some b => canonMatch a b
+  | none, none => true
+  | _, _ => false
+
+def wHasOpaque : W → Bool
+  | some c => canonHasOpaque c
   | none => false
 
 def refMatch : Except RefErr W → Except RefErr W → Bool
@@ -278,7 +400,7 @@ def obsMatch : Obs W → Obs W → Bool
   | .ok a, .ok b => wMatch a b
   | a, b => a == b
 
-def lastDunder : E PV → String
+def lastDunder : E Val → String
   | .texpr steps => match steps.getLast? with
     | some (d, _) => d
     | none => "T"
@@ -287,64 +409,88 @@ def lastDunder : E PV → String
 def primUnsupported : Except RefErr W → Bool
   | .error (.opFail _ _ e) => e.cls == "<unsupported>"
   | .error (.raised e) => e.cls == "<unsupported>"
+  | .error (.callee (.pae _ e)) => e.cls == "<unsupported>"
+  | .error (.callee (.raised e)) => e.cls == "<unsupported>"
   | _ => false
 
-def isMutator (n : String) : Bool := n == "pop" || n == "append" || n == "setdefault"
+def isMutator (n : String) : Bool :=
+  n == "pop" || n == "append" || n == "setdefault" || n == "add" || n == "discard"
 
-/-- does the expression name a method that changes its object? (for the histogram only) -/
-partial def mentionsMutator : E PV → Bool
+/-- does the expression name a method that changes its object / use a literal heap object /
+    a subclass literal? (for the histogram only) -/
+partial def mentions (p : E Val → Bool) : E Val → Bool
+  | e@(.lit _) => p e
+  | .texpr steps => steps.any (fun st => mentions p st.2)
+  | .spec x => mentions p x
+  | .list xs | .tuple xs | .set _ xs => xs.any (mentions p)
+  | .dict es => es.any (fun kv => mentions p kv.1 || mentions p kv.2)
+  | .cargs args kwargs => args.any (mentions p) || kwargs.any (fun kv => mentions p kv.2)
+  | e@(.sub ..) => p e
+
+def isMutLit : E Val → Bool
   | .lit (.str n) => isMutator n
-  | .lit _ => false
-  | .texpr steps => steps.any (fun st => mentionsMutator st.2)
-  | .spec x => mentionsMutator x
-  | .list xs | .tuple xs => xs.any mentionsMutator
-  | .dict es => es.any (fun kv => mentionsMutator kv.1 || mentionsMutator kv.2)
-  | .cargs args kwargs => args.any mentionsMutator || kwargs.any (fun kv => mentionsMutator kv.2)
-
-def isCyclic : Except RefErr W → Bool
-  | .ok (none, _) => true
   | _ => false
+
+def isSub : E Val → Bool
+  | .sub .. => true
+  | _ => false
+
+/-- is some cell reachable by two different edges (sharing / a cycle)? -/
+def hasSharing (c : Canon) : Bool :=
+  let refs := (c.roots.drop 1 ++ c.cells.flatMap childrenKV).filterMap (fun v => match v with
+    | .ref a => some a
+    | _ => none)
+  -- the first root (the value) is usually also reachable from the target: not counted
+  (List.range c.cells.length).any (fun a => (refs.filter (· == a)).length > 1)
 
 def run (j : Json) : Except String Json := do
-  let targetPV ← pvOfJson (← j.getObjVal? "target")
-  let ePV ← exprOfJson (← j.getObjVal? "expr")
-  let implObs ← obsOfJson (← j.getObjVal? "impl") (← aliasOfJson j "impl_alias")
-  let implAfterPV ← pvOfJson (← j.getObjVal? "impl_after")
-  let direct ← refOfJson (← j.getObjVal? "direct") (← aliasOfJson j "direct_alias")
-  let directAfterPV ← pvOfJson (← j.getObjVal? "direct_after")
   let F := genFacts
-  let some (target, s00) := allocPV targetPV { heap := [] }
-    | return Json.mkObj [("skip", true), ("why", "target outside the heap instance")]
-  let some (e, s0) := exprToHeap ePV s00
-    | return Json.mkObj [("skip", true), ("why", "literal outside the heap instance")]
-  let view := viewOf target
-  -- the alias path of the target object itself ([] for a container, none for a scalar)
-  let rootAlias := aliasOf s0 target target
-  let implAfter : W := (some implAfterPV, rootAlias)
-  let directAfter : W := (some directAfterPV, rootAlias)
-  let rr := refEval hPrim e target s0
+  let heap ← heapOfJson (← j.getObjVal? "g_heap")
+  let target ← valOfJson (← j.getObjVal? "g_target")
+  let lits ← listOfJson valOfJson (← j.getObjVal? "g_lits")
+  let s00 : HS := { heap }
+  let shared := match j.getObjVal? "shared" with
+    | .ok (.arr a) => a.toList
+    | _ => []
+  let (e, s0) ← match exprOfJson lits shared (← j.getObjVal? "expr") s00 with
+    | .ok r => pure r
+    | .error msg =>
+      if msg.startsWith "skip:" then
+        return Json.mkObj [("skip", true), ("why", String.ofList (msg.toList.drop 5))]
+      else throw msg
+  let implObs ← obsOfJson (← j.getObjVal? "impl")
+  let implAfter : W := some (← canonOfJson (← j.getObjVal? "impl_after"))
+  let direct ← refOfJson F (← j.getObjVal? "direct")
+  let directAfter : W := some (← canonOfJson (← j.getObjVal? "direct_after"))
+  let prim := hPrim F primDepth
+  let view := viewOf target lits
+  let startW := view s0 target
+  let rr := refEval prim prim.revalFunc e target s0
   let leanRef : Except RefErr W := viewRes view rr
   let leanAfter : W := view rr.2 target
-  if refEq leanRef (.error .unsupported) then
+  if (match rr.1 with | .error re => re.isUnsupported | _ => false) then
     return Json.mkObj [("skip", true), ("why", "expression outside the C02 fragment")]
   if let some why := rr.2.bad then
     return Json.mkObj [("skip", true), ("why", why)]
-  let mr : Except Err Val × HS := match record F hPrim.none e with
-    | some o => tEval F hPrim o target s0
+  let mr : Except Err Val × HS := match record F prim.none e with
+    | some o => tEval F prim o target s0
     | none => (.error (.raised ⟨"<no overload>"⟩), s0)
   let modelPair := observeS F view target mr
   let modelObs := modelPair.1
   let modelAfter := modelPair.2
-  let stateful := if mentionsMutator ePV then "mut:" else ""
+  let tags :=
+    (if mentions isMutLit e then "mut:" else "") ++
+    (if mentions isSub e then "sub:" else "") ++
+    (match startW with | some c => if hasSharing c then "shared:" else "" | none => "")
   if primUnsupported leanRef then
     -- the kernel has no definition for a primitive used here: only the property is
     -- evaluated, against Python's own outcome
     let holds := checkObs direct implObs && directAfter == implAfter
     return Json.mkObj [("agree", true), ("holds", holds), ("model", obsToJson modelObs),
-      ("lean_ref", refToJson leanRef), ("branch", "prim-outside-kernel"),
+      ("lean_ref", refToJson leanRef), ("branch", tags ++ "prim-outside-kernel"),
       ("why", if holds then "" else "implementation differs from the chain applied directly in Python")]
-  if leanAfter.1.isNone || modelAfter.1.isNone || isCyclic leanRef then
-    return Json.mkObj [("skip", true), ("why", "the result or the target is not a tree any more (cyclic)")]
+  if leanAfter.isNone || modelAfter.isNone then
+    return Json.mkObj [("skip", true), ("why", "the object graph has a dangling reference or is too big")]
   -- the kernel's outcome against CPython's, modulo opaque floats (equality when there is none)
   let primOk := refMatch leanRef direct && wMatch leanAfter directAfter
   let hasOpq := wHasOpaque leanAfter || (match leanRef with | .ok w => wHasOpaque w | _ => false)
@@ -353,26 +499,33 @@ def run (j : Json) : Except String Json := do
   let ref := if primOk && !hasOpq then leanRef else direct
   let refAfter := if primOk && !hasOpq then leanAfter else directAfter
   let holds := checkObs ref implObs && refAfter == implAfter
-  let modelHolds := checkC02 view hPrim e target s0 modelPair
+  let modelHolds := checkC02 view prim prim.revalFunc e target s0 modelPair
   let agree := primOk && modelHolds && obsMatch modelObs implObs && wMatch modelAfter implAfter
   let why :=
     (if checkObs ref implObs then "" else "property fails on the implementation's observation; ") ++
-    (if refAfter == implAfter then "" else "the target is left in another state than by the chain applied directly; ") ++
+    (if refAfter == implAfter then "" else "the object graph is left in another state than by the chain applied directly; ") ++
     (if primOk then "" else "Lean primitives differ from Python's direct evaluation; ") ++
     (if modelHolds then "" else "model fails its own checker; ") ++
     (if obsMatch modelObs implObs then "" else "model differs from implementation; ") ++
-    (if wMatch modelAfter implAfter then "" else "model leaves the target in another state than the implementation; ")
+    (if wMatch modelAfter implAfter then "" else "model leaves the object graph in another state than the implementation; ")
   let aliased := match leanRef with
-    | .ok (_, some _) => "alias:"
+    | .ok (some c) =>
+      -- the result IS one of the objects the target / the literal objects reach
+      (match c.roots.head? with
+       | some (.ref a) =>
+         if (c.roots.drop 1 ++ c.cells.flatMap childrenKV).any (· == Val.ref a) then "alias:" else ""
+       | _ => "")
     | _ => ""
   let branch := match leanRef with
-    | .ok _ => s!"{stateful}{aliased}{if hasOpq then "opaque:" else ""}ok:{lastDunder ePV}"
-    | .error (.opFail _ kind x) => s!"{stateful}fail:{kindName kind}:{x.cls}"
-    | .error (.raised x) => s!"{stateful}argfail:{x.cls}"
-    | .error .unsupported => "unsupported"
+    | .ok _ => s!"{tags}{aliased}{if hasOpq then "opaque:" else ""}ok:{lastDunder e}"
+    | .error (.opFail _ kind x) => s!"{tags}fail:{kindName kind}:{x.cls}"
+    | .error (.raised x) => s!"{tags}argfail:{x.cls}"
+    | .error (.callee (.pae _ x)) => s!"{tags}calleefail:pae:{x.cls}"
+    | .error (.callee (.raised x)) => s!"{tags}calleefail:{x.cls}"
+    | .error _ => "unsupported"
   return Json.mkObj [("agree", agree), ("holds", holds), ("model_holds", modelHolds),
     ("prim_ok", primOk), ("wf", WF F), ("model", obsToJson modelObs),
-    ("model_after", wToJson modelAfter), ("changed", !(leanAfter.1 == some targetPV)),
+    ("model_after", wToJson modelAfter), ("changed", !(leanAfter == startW)),
     ("lean_ref", refToJson leanRef), ("lean_after", wToJson leanAfter),
     ("branch", branch), ("why", why)]
 
